@@ -1125,10 +1125,13 @@ fn run(c: &Case) -> Obs {
         "tb" => run_tb(c),
         "sf" => run_sf(c),
         "sfw" => run_sfw(c),
+        "lzg" => run_lzg(c),
+        "hco" => run_hco(c),
         _ => Obs { obs: "-".into(), verdict: "skip".into(), nontrivial: false },
     }
 }
 
 include!("c06_part4.rs");
 include!("c06_part5.rs");
+include!("c06_part6.rs");
 include!("c06_part3.rs");
